@@ -1,29 +1,179 @@
-"""C10, round 4 — `_labeled.cpp` (label union-find, borders, slic, is_same_labeling), `_center_of_mass` label path, `_bbox` labeled n-D path.
+"""C10, round 4 — the union–find array of `_labeled.cpp: label` (lean/Mahotas/Model/C10Labeled.lean).
 
-Same interface as c10_misc.py: `KINDS` (the model2 kinds answered by lean/Mahotas/Model/C10Labeled.lean),
-`line_and_direct(w, q)` -> (line, [(index, size)], term, extra) with a DIRECT Python re-evaluation of the C++ index
-expressions, `model_cases(rng, n)`; `REAL_KIND` cases compare what the model computes with the real binary.
+model2: the driver's trace of `data[·]` indices (verdict, number, sum, termination, parents after compression) against a DIRECT
+Python re-evaluation of `find` / `join` / `compress` / the scan loop of `label` (recursive `find` written from the C++ text, with
+an explicit array and a recursion counter); `finduf` cases run one `find` on arbitrary arrays (cycles, out-of-range parents:
+out of the domain, model and direct evaluation must agree on ok=0 / term=0).
+labeledreal: the partition the traced parents induce against the REAL `mahotas.label` (1–3 D, random Bc): two foreground pixels
+have the same root in the model's parent array iff the binary gives them the same label; number of roots = number of objects.
 """
 from __future__ import annotations
-import json
+import itertools, json
 import numpy as np
 from .. import core, iso
 
-KINDS = ()
+KINDS = ('labeluf', 'finduf')
 REAL_KIND = 'labeledreal'
 
 
+def _csv(v):
+    return ','.join(str(int(x)) for x in v) or '-'
+
+
+class _OutOfFuel(Exception):
+    pass
+
+
+def _find(data, i, acc, fuel):
+    """int find(It data, int i) { if (data[i] == i) return i; int j = find(data, data[i]); data[i] = j; return j; }"""
+    if fuel[0] == 0:
+        acc.append(i)
+        raise _OutOfFuel()
+    fuel[0] -= 1
+    acc.append(i)
+    if not (0 <= i < len(data)):
+        return None
+    if data[i] == i:
+        return i
+    saved = fuel[0]
+    try:
+        j = _find(data, data[i], acc, fuel)
+    except _OutOfFuel:
+        acc.append(i)                    # the trace convention of the Lean definition: every started call is closed
+        raise
+    fuel[0] = saved                      # the bound is on the DEPTH of one recursion (as `fuel` of the Lean definition)
+    acc.append(i)
+    if j is not None:
+        data[i] = j
+    return j
+
+
+def py_finduf(par, i, fuel):
+    data, acc = list(par), []
+    try:
+        _find(data, i, acc, [fuel])
+        term = True
+    except _OutOfFuel:
+        term = False
+    return [(x, len(par)) for x in acc], term, {}
+
+
+def _offsets(bshape, bc):
+    centre = [s // 2 for s in bshape]
+    return [[a - c for a, c in zip(k, centre)] for k, b in zip(itertools.product(*[range(s) for s in bshape]), bc) if b]
+
+
+def py_labeluf(shape, data0, bshape, bc, fuel):
+    N = len(data0)
+    data = [i if v else -1 for i, v in enumerate(data0)]
+    offs = _offsets(bshape, bc)
+    acc, term = [], True
+    strides = [int(np.prod(shape[d + 1:])) for d in range(len(shape))]
+    pos_of = list(itertools.product(*[range(s) for s in shape]))
+    try:
+        for i in range(N):
+            if data[i] == -1:
+                continue
+            for k in offs:
+                q = [a + b for a, b in zip(pos_of[i], k)]
+                if not all(0 <= x < s for x, s in zip(q, shape)):
+                    continue                                   # ExtendConstant: retrieve() returns false
+                v = data[sum(x * st for x, st in zip(q, strides))]
+                if v == -1:
+                    continue
+                ri = _find(data, i, acc, [fuel])               # join(data, i, arr_val)
+                rj = _find(data, v, acc, [fuel])
+                acc.append(ri)
+                data[ri] = rj
+        for i in range(N):
+            if data[i] != -1:
+                _find(data, i, acc, [fuel])
+    except _OutOfFuel:
+        term = False
+    return [(x, N) for x in acc], term, dict(parents=_csv(data)) if term else {}
+
+
+def line_for(w, q):
+    if w == 'finduf':
+        return f"c10 kind=finduf par={_csv(q['par'])} i={q['i']}" + (f" fuel={q['fuel']}" if q.get('fuel') is not None else '')
+    return (f"c10 kind=labeluf shape={_csv(q['shape'])} data={_csv(q['data'])} bshape={_csv(q['bshape'])} bc={_csv(q['bc'])}"
+            + (f" fuel={q['fuel']}" if q.get('fuel') is not None else ''))
+
+
 def line_and_direct(w, q):
-    raise core.Infra(f'unknown labeled kind {w}')
+    line = line_for(w, q)
+    if w == 'finduf':
+        fuel = q['fuel'] if q.get('fuel') is not None else len(q['par']) + 1
+        return (line,) + py_finduf(q['par'], q['i'], fuel)
+    fuel = q['fuel'] if q.get('fuel') is not None else len(q['data']) + 1
+    return (line,) + py_labeluf(q['shape'], q['data'], q['bshape'], q['bc'], fuel)
+
+
+def _img_case(rng):
+    R = rng.randint
+    nd = rng.choice([1, 2, 2, 3])
+    shape = [R(1, {1: 14, 2: 6, 3: 4}[nd]) for _ in range(nd)]
+    p = rng.choice([0.3, 0.6, 0.9, 1.0])
+    data = [int(rng.random() < p) * R(1, 5) for _ in range(int(np.prod(shape)))]
+    bshape = [rng.choice([1, 3, 3, 3, 2, 5]) for _ in range(nd)]
+    bc = [int(rng.random() < rng.choice([0.4, 0.8, 1.0])) for _ in range(int(np.prod(bshape)))]
+    return dict(shape=shape, data=data, bshape=bshape, bc=bc, fuel=None)
 
 
 def model_cases(rng, n):
-    return []
+    out, R = [], rng.randint
+    for _ in range(n):
+        if rng.random() < 0.7:
+            out.append(dict(kind='model2', which='labeluf', p=_img_case(rng), domain=True))
+        else:
+            # one find: a forest (domain) or an arbitrary array (cycles, -1, out-of-range parents)
+            n0 = R(1, 12)
+            if rng.random() < 0.6:
+                par = [rng.choice([i, R(0, i)]) for i in range(n0)]      # parents point to smaller-or-equal indices: a forest
+                q, dom = dict(par=par, i=R(0, n0 - 1), fuel=None), True
+            else:
+                par = [R(-1, n0) for _ in range(n0)]
+                q, dom = dict(par=par, i=R(0, n0 - 1), fuel=rng.choice([None, R(1, 5)])), False
+            out.append(dict(kind='model2', which='finduf', p=q, domain=dom))
+    return out
 
 
 def real_cases(rng, n):
-    return []
+    return [dict(kind=REAL_KIND, which='label', p=_img_case(rng)) for _ in range(n)]
 
 
 def eval_real(case, SRC):
-    raise core.Infra('no labeledreal cases yet')
+    import mahotas as mh
+    q = case['p']
+    line = line_for('labeluf', q)
+    d = core.drive([line])[0]
+    tags = dict(kind=REAL_KIND, which='label', ndim=len(q['shape']))
+    if d.get('ok') != '1':
+        return dict(findings=[dict(kind='property', key='index-out-of-bounds:label-union-find', detail=dict(line=line, answer=d))],
+                    nontrivial=True, sig=line, tags=tags)
+    par = core.ints(d['parents'])
+    img = np.array(q['data']).reshape(q['shape'])
+    Bc = np.array(q['bc'], bool).reshape(q['bshape'])
+    fnd = []
+    try:
+        lab, nobj = mh.label(img, Bc)
+    except ValueError as e:                                       # e.g. a structuring element the wrapper rejects
+        return dict(findings=[], nontrivial=False, sig=line, tags=dict(tags, outcome='rejected'))
+    lab = lab.ravel()
+
+    def root(i):
+        while par[i] != i:
+            i = par[i]
+        return i
+    roots = {}
+    ok = True
+    for i, v in enumerate(par):
+        if v == -1:
+            ok &= lab[i] == 0
+        else:
+            r = root(i)
+            ok &= lab[i] != 0 and roots.setdefault(r, int(lab[i])) == int(lab[i])
+    ok &= len(set(roots.values())) == len(roots) == int(nobj)
+    if not ok:
+        fnd.append(dict(kind='model', key='labeled-real:label', detail=dict(line=line, parents=par, real=[int(x) for x in lab], nobj=int(nobj))))
+    return dict(findings=fnd, nontrivial=True, sig=line, tags=dict(tags, outcome='agree' if ok else 'differ'))
